@@ -79,8 +79,11 @@ class C03(Prop):
                     scripts[key] = {"replies": [{"k": "genuine", "outer": [{"op": "truncate", "n": rng.randrange(1, 200)}]}]}
                 elif r < 0.3:
                     scripts[key] = {"replies": [{"k": "genuine", "outer": [{"op": "oversize", "val": rng.randrange(256), "extra": rng.choice([1, 50])}]}]}
-                elif r < 0.36:
-                    scripts[key] = {"replies": [{"k": "genuine", "rewrite": {"request-id": "xor1"}}, {"k": "genuine", "delay_ns": 3_000_001}]}
+                elif r < 0.4:
+                    rw = {"request-id": "xor1"}
+                    if cfg["version"] == "v3":
+                        rw = {rng.choice(["request-id", "msg-id"]): "xor1", "time": rng.choice([0, 5, 77777, 2**31 - 1]), "boots": rng.choice([0, 3, 2**31 - 1])}
+                    scripts[key] = {"replies": [{"k": "genuine", "rewrite": rw}] + ([{"k": "genuine", "delay_ns": 3_000_001}] if rng.random() < 0.6 else [])}
             plan_ops.append(mine)
         # interleave (keeps per-session order)
         while any(plan_ops):
